@@ -939,10 +939,11 @@ pub fn main_with(spec: PropSpec, build: impl Fn(&mut Jobs, &Args), finish: impl 
         "violations": violations.len(),
     });
     if args.only.is_none() {
-        let dir = args.root.join("evidence");
+        // the `fast` profile (no debug assertions) repeats a thorough run; its evidence goes to a
+        // separate directory so that evidence/<ID>.json always comes from the checked profile
+        let dir = args.root.join(if cfg!(debug_assertions) { "evidence" } else { "evidence_fast" });
         let _ = std::fs::create_dir_all(&dir);
-        let suffix = if cfg!(debug_assertions) { "" } else { ".fast" };
-        std::fs::write(dir.join(format!("{}{}.json", spec.id, suffix)), serde_json::to_string_pretty(&ev).unwrap())
+        std::fs::write(dir.join(format!("{}.json", spec.id)), serde_json::to_string_pretty(&ev).unwrap())
             .expect("write evidence");
     }
 
